@@ -40,7 +40,7 @@ type caseT struct {
 	ImagePS  int    `json:"image_page_size"`
 	ImageN   int    `json:"image_pages"`
 	ImageWAL bool   `json:"image_wal_header"`
-	Bad      string `json:"bad"` // "" | truncated | garbage | short-header | empty | one-byte-short
+	Bad      string `json:"bad"` // "" | truncated | garbage | short-header | empty | one-byte-short | pages-missing | last-page-missing
 }
 
 func makeImage(r *common.Rand, ps, n int, wal bool) []byte {
@@ -169,6 +169,12 @@ func runCase(c *common.Ctx, ct caseT, r *common.Rand, cf *common.CaseFile) error
 		input = img[:len(img)-ct.ImagePS-7]
 	case "one-byte-short":
 		input = img[:len(img)-1]
+	case "pages-missing": // cut exactly at a page boundary: the header promises more pages than follow
+		input = img[:len(img)-2*ct.ImagePS]
+	case "last-page-missing":
+		input = img[:len(img)-ct.ImagePS]
+	case "extra-page": // one page more than the header says
+		input = append(append([]byte(nil), img...), r.Bytes(ct.ImagePS)...)
 	case "garbage":
 		input = r.Bytes(len(img))
 	case "short-header":
@@ -340,6 +346,8 @@ func Run(c *common.Ctx) error {
 			caseT{Target: tgt, TargetPS: 512, ImagePS: 512, ImageN: 4, Bad: "short-header"},
 			caseT{Target: tgt, TargetPS: 512, ImagePS: 512, ImageN: 4, Bad: "empty"},
 			caseT{Target: tgt, TargetPS: 512, ImagePS: 512, ImageN: 4, Bad: "one-byte-short"},
+			caseT{Target: tgt, TargetPS: 512, ImagePS: 512, ImageN: 5, Bad: "pages-missing"},
+			caseT{Target: tgt, TargetPS: 512, ImagePS: 1024, ImageN: 3, Bad: "last-page-missing"},
 		)
 	}
 	cases = append(cases, caseT{Target: "rollback", TargetPS: 512, ImagePS: 512, ImageN: 260}, caseT{Target: "wal-pending", TargetPS: 512, ImagePS: 512, ImageN: 257, ImageWAL: true})
